@@ -46,6 +46,9 @@ const PREFIXES: &[&str] = &[
 
 #[derive(Debug, Clone, Serialize, Deserialize, PartialEq)]
 pub enum Op {
+    /// like EditValid, but the file keeps an OLD modification time (cp -p, rsync -t, unpacking an archive, git checkout
+    /// of an older commit with restored times): older than any destination written so far
+    EditValidOldMtime(usize, usize),
     EditValid(usize, usize),
     EditInvalid(usize, usize),
     EditSame(usize),
@@ -91,7 +94,12 @@ pub fn build(bytes: &[u8]) -> History {
     }
     for _ in 0..n {
         let f = src.pick(nfiles);
-        ops.push(match src.weighted(&[10, 4, 3, 2, 5, 2, 1]) {
+        ops.push(match src.weighted(&[10, 4, 3, 2, 5, 2, 1, 2]) {
+            7 => {
+                let k = src.pick(VALID.len());
+                last_valid[f] = k;
+                Op::EditValidOldMtime(f, k)
+            }
             0 => Op::Run,
             1 => {
                 // often a neighbouring text: neighbours in the pool differ minimally (whitespace only)
@@ -206,9 +214,16 @@ fn execute_inner(h: &History, root: &Path) -> Result<(bool, u64), Failure> {
     let mut edited_after_success = false;
     for (step, op) in h.ops.iter().enumerate() {
         match op {
-            Op::EditValid(f, k) => {
+            Op::EditValid(f, k) | Op::EditValidOldMtime(f, k) => {
                 let f = &mut files[*f % h.nfiles];
                 std::fs::write(&f.grammar, VALID[*k]).unwrap();
+                if matches!(op, Op::EditValidOldMtime(..)) {
+                    // 2001-09-09: older than everything this history has written
+                    let old = std::time::UNIX_EPOCH + std::time::Duration::from_secs(1_000_000_000 + step as u64);
+                    if let Ok(fh) = std::fs::OpenOptions::new().write(true).open(&f.grammar) {
+                        let _ = fh.set_modified(old);
+                    }
+                }
                 f.text = Some(VALID[*k].to_string());
                 if had_success {
                     edited_after_success = true;
@@ -389,6 +404,9 @@ pub fn run(seed: u64, cases: u32, out: &str, workdir: &str) {
                 }
                 if h.relative_paths {
                     classes.push("relative_paths");
+                }
+                if h.ops.iter().any(|o| matches!(o, Op::EditValidOldMtime(..))) {
+                    classes.push("edit_with_old_mtime");
                 }
                 if h.ops.iter().any(|o| matches!(o, Op::EditInvalid(_, k) if *k >= INVALID.len())) {
                     classes.push("non_utf8_grammar_file");
